@@ -1245,6 +1245,14 @@ class _InlineNewHelpers(_InlineMethods):
                 return [ast.copy_location(ast.Expr(value=v), ret)]
             if v is None:
                 v = ast.copy_location(ast.Constant(value=None), ret)
+            if isinstance(target, ast.Tuple) and isinstance(v, ast.Call) and isinstance(v.func, ast.Name) and v.func.id in self.records and \
+                    not any(isinstance(a, ast.Starred) for a in v.args) and all(k.arg for k in v.keywords):
+                # a small record that is unpacked at once is the tuple of its fields
+                fields = self.records[v.func.id]
+                vals = dict(zip(fields, v.args))
+                vals.update({k.arg: k.value for k in v.keywords})
+                if set(vals) == set(fields) and len(fields) == len(target.elts):
+                    v = ast.copy_location(ast.Tuple(elts=[vals[f_] for f_ in fields], ctx=ast.Load()), v)
             if isinstance(target, ast.Tuple) and isinstance(v, ast.Tuple) and len(target.elts) == len(v.elts) and all(isinstance(e, ast.Name) for e in target.elts):
                 pairs = [(t, e) for t, e in zip(target.elts, v.elts) if not (isinstance(e, ast.Name) and e.id == t.id)]
                 written = {t.id for t, _e in pairs}
@@ -1814,6 +1822,22 @@ def _scalar_replacement(fn, records):
                     return res or ast.copy_location(ast.Pass(), node)
             return node
     _T().visit(fn)
+    # an aggregate nobody looks at any more was only the carrier: its construction goes too (a rule that asks who else holds one of the values
+    # would otherwise see the carrier as a second holder)
+    still_read = {x.id for x in ast.walk(fn) if isinstance(x, ast.Name) and isinstance(x.ctx, ast.Load)}
+    dead = {nm for nm in aggs if nm not in still_read}
+    if dead:
+        class _D(ast.NodeTransformer):
+            def visit_Assign(self, node):
+                if len(node.targets) == 1 and isinstance(node.targets[0], ast.Name) and node.targets[0].id in dead:
+                    return ast.copy_location(ast.Pass(), node)
+                return node
+
+            def visit_FunctionDef(self, node):
+                if node is fn:
+                    self.generic_visit(node)
+                return node
+        _D().visit(fn)
     ast.fix_missing_locations(fn)
 
 
